@@ -112,7 +112,43 @@ def run_flow(ctx) -> RuleResult:
                                        f"its complete reversal: terms can be skipped or repeated"))
     if not seen:
         raise AnalysisError("_to_string: the term loop is never entered on any path")
-    result.floor = 6
+    # coefficient elision: '' only for coefficient == 1, '-' only for coefficient == -1
+    n_elide = 0
+    for node in ast.walk(term_loop):
+        value = None
+        if isinstance(node, ast.Assign) and isinstance(node.value, ast.Constant) and node.value.value in ("", "-"):
+            value = node.value.value
+        if value is None:
+            if isinstance(node, ast.Assign) and isinstance(node.value, ast.IfExp):
+                branches = [b.value for b in (node.value.body, node.value.orelse) if isinstance(b, ast.Constant)]
+                if any(b in ("", "-") for b in branches):
+                    value = "ifexp"
+            if value is None:
+                continue
+        n_elide += 1
+        guard = node._parent
+        want = {"": 1, "-": -1}.get(value)
+        ok = False
+        if isinstance(guard, ast.If) and node in guard.body and want is not None:
+            for conj in (guard.test.values if isinstance(guard.test, ast.BoolOp) and isinstance(guard.test.op, ast.And) else [guard.test]):
+                if isinstance(conj, ast.Compare) and len(conj.ops) == 1 and isinstance(conj.ops[0], ast.Eq):
+                    comp = conj.comparators[0]
+                    lit = comp.value if isinstance(comp, ast.Constant) else (
+                        -comp.operand.value if isinstance(comp, ast.UnaryOp) and isinstance(comp.op, ast.USub)
+                        and isinstance(comp.operand, ast.Constant) else None)
+                    if lit == want and isinstance(conj.left, ast.Subscript) and "coefficient" in U(conj.left):
+                        ok = True
+        result.ob(f"coefficient text {value!r} is elided only for coefficient == {want}", ok, module.loc(node),
+                  U(guard.test)[:80] if isinstance(guard, ast.If) else "")
+        if not ok:
+            result.add(Finding(
+                "R-FLOW", module, "_to_string", node,
+                f"the coefficient is dropped from the text ({U(node)[:50]}) under a guard that is not "
+                f"'coefficient == {want if want is not None else '+-1'}': coefficients other than +-1 (e.g. complex of modulus 1) "
+                f"are printed as 1"))
+    if n_elide < 2:
+        raise AnalysisError("_to_string: coefficient elision branches not recognised")
+    result.floor = 8
     return result
 
 
@@ -218,13 +254,12 @@ def run_unsigned(ctx) -> RuleResult:
                         if not ok:
                             result.add(Finding(
                                 "R-UNSIGNED", module, qual, node,
-                                f"'{U(getattr(node, '_orig', node))[:60]}' subtracts from unsigned exponents without a "
-                                f"component-wise guard: an exponent 0 wraps to 4294967295 ({why})",
+                                f"'{U(getattr(node, '_orig', node))[:60]}' relies on a component-wise guard of the unsigned "
+                                f"exponents that is not (or no longer) in place: {why}",
                                 derivation=describe_path(path)))
                     if isinstance(op, ast.Pow) and _is_exponent_value(right):
                         n += 1
-                        base_poly = ".indeterminants" in _txt(left) or "numpoly.variable" in _txt(left) \
-                            or "numpoly.symbols" in _txt(left)
+                        base_poly = _is_indeterminants(left)
                         result.ob(f"{fq}: power with a uint32 exponent has a polynomial base", base_poly,
                                   module.loc(step.orig), _txt(left)[:80])
                         if not base_poly:
@@ -239,6 +274,19 @@ def run_unsigned(ctx) -> RuleResult:
         raise AnalysisError(f"R-UNSIGNED: only {n} exponent arithmetic sinks found (confirmed 3)")
     result.floor = 2
     return result
+
+
+def _is_indeterminants(expr) -> bool:
+    """The base of a power is always an ndpoly: (a subscript of) X.indeterminants."""
+    node = expr
+    for _ in range(6):
+        if isinstance(node, ast.Attribute) and node.attr == "indeterminants":
+            return True
+        if isinstance(node, ast.Subscript) or (is_S(node) and node.args):
+            node = node.value if isinstance(node, ast.Subscript) else node.args[0]
+        else:
+            return False
+    return False
 
 
 def _load(target):
@@ -276,9 +324,96 @@ def _sub_guarded(ctx, module, fq, left, right, step):
             return False, "get_division_candidate is missing"
         gmod, gfunc = found
         for sub in ast.walk(gfunc):
-            if isinstance(sub, ast.If) and any(isinstance(s, ast.Continue) for s in sub.body):
+            if isinstance(sub, ast.If):
                 test = U(sub.test)
                 if "<" in test and "numpy.any" in test and "exponent" in test:
-                    return True, "pair chosen by get_division_candidate, which skips candidates with exponent1 < exponent2"
+                    if any(isinstance(s, ast.Continue) for s in sub.body):
+                        return True, "pair chosen by get_division_candidate, which skips candidates with exponent1 < exponent2"
+                    if any(isinstance(s, (ast.Break, ast.Return)) for s in sub.body):
+                        return False, ("get_division_candidate ends its search (break/return) at the first dividend term "
+                                       "that is not divisible instead of skipping it (continue): divisible terms further "
+                                       "down are never reduced, exact multiples keep a remainder")
         return False, "get_division_candidate no longer skips candidates whose exponent is smaller than the divisor's"
     return False, "no guard recognised"
+
+
+# ---------------------------------------------------------------------------
+# R-LAYOUT: positional column indices need a known names layout
+
+
+def _layout_known(ctx, module, expr) -> bool:
+    """The names tuple of this polynomial is independent of the global retain_names option:
+    the caller's own polynomial, an alignment result, or a construction that pins retain_names."""
+    node = expr
+    if isinstance(node, ast.Subscript) and isinstance(node.value, ast.Call) and not is_S(node.value):
+        name = ctx.dotted(module, node.value.func) or ""
+        if name.startswith("numpoly.align.align_"):
+            return True
+    if isinstance(node, ast.Call) and not is_S(node):
+        name = ctx.dotted(module, node.func) or ""
+        if name == "numpoly.construct.aspolynomial.aspolynomial" and node.args and is_param(node.args[0]):
+            return True
+        if "from_attributes" in name or (name == "" and isinstance(node.func, ast.Attribute) and node.func.attr == "from_attributes"):
+            pin = kwarg(node, "retain_names")
+            return isinstance(pin, ast.Constant) and pin.value is True
+    if is_param(node):
+        return True
+    return False
+
+
+def run_layout(ctx) -> RuleResult:
+    result = RuleResult(
+        "R-LAYOUT",
+        "derivative: a positional column index is only applied to the exponent matrix of a polynomial whose "
+        "names layout does not depend on the global retain_names option (caller's polynomial, alignment result, "
+        "or construction with retain_names=True)",
+    )
+    modname = "numpoly.poly_function.derivative"
+    module = ctx.repo.module(modname)
+    func = ctx.repo.function(modname, "derivative")
+    n = 0
+    seen = set()
+    for path in ctx.paths_auto(module, func):
+        for step in path:
+            for raw in step_exprs(step) + ([step.node.target] if step.kind == "stmt" and isinstance(step.node, ast.AugAssign) else []):
+                for sub in ast.walk(raw):
+                    if not isinstance(sub, ast.Subscript):
+                        continue
+                    exp = step.expand(ast.Subscript(value=sub.value, slice=sub.slice, ctx=ast.Load()))
+                    matrix = _exponent_matrix(exp.value)
+                    if matrix is None:
+                        continue
+                    # a column index: X.exponents[:, i]  or a row element exponent[i]
+                    sl = exp.slice
+                    column = None
+                    if isinstance(sl, ast.Tuple) and len(sl.elts) == 2:
+                        column = sl.elts[1]
+                    elif is_S(exp.value, "elem") and not isinstance(sl, (ast.Slice, ast.Tuple)):
+                        column = sl
+                    if column is None or isinstance(column, ast.Slice):
+                        continue
+                    ckey = (_txt(exp), )
+                    base = matrix.value
+                    from_names = isinstance(column, ast.Call) and isinstance(column.func, ast.Attribute) and column.func.attr == "index" \
+                        and ".names" in _txt(column.func.value)
+                    known = _layout_known(ctx, module, base)
+                    ok = known or (from_names and _txt(column.func.value.value) == _txt(base))
+                    key = (id(sub), _txt(base)[:200], ok)
+                    if key in seen:
+                        continue
+                    seen.add(key)
+                    n += 1
+                    result.ob("derivative: column index applied to a polynomial with a known names layout", ok,
+                              module.loc(step.orig), _txt(base)[:90])
+                    if not ok:
+                        result.add(Finding(
+                            "R-LAYOUT", module, "derivative", sub,
+                            f"column {_txt(column)[:40]} is applied to the exponents of '{_txt(base)[:90]}', a polynomial "
+                            f"rebuilt without retain_names=True and not re-aligned with the reference: under "
+                            f"retain_names=False its columns may have been dropped, so the index addresses another variable",
+                            derivation=describe_path(path)))
+    result.info["column_index_sites"] = n
+    if n < 2:
+        raise AnalysisError(f"R-LAYOUT: only {n} column index sites found in derivative")
+    result.floor = 2
+    return result
